@@ -335,8 +335,8 @@ def c10_5(facts, res):
             if ch[0] in ("find", "position", "find_map", "rfind", "rposition", "last", "first", "next"):
                 newest = ch[0] in ("rfind", "rposition", "last") or "rev" in ch
                 readers.append((f, n, newest))
-    if not writers or len(readers) < 2:
-        raise BrokenCheck("C10-5: %d writers / %d readers of Context.namespaces (floor 1 / 2)" % (len(writers), len(readers)))
+    if not writers or not readers:       # three readers on the unchanged tree; they may be merged into one lookup helper
+        raise BrokenCheck("C10-5: %d writers / %d readers of Context.namespaces (floor 1 / 1)" % (len(writers), len(readers)))
     st["instances"] = len(writers) + len(readers)
     st["writers"] = len(writers)
     st["readers"] = len(readers)
